@@ -1,5 +1,5 @@
 """C19 rename changes exactly the occurrences of one variable."""
-REG_DRAFT = dict(
+REG = dict(
     engine='E1-enum',
     technique='bounded-exhaustive enumeration of binder programs (same name bound by let / destructuring let / parameter / closure parameter / for / match payload in nested, sibling and enclosing scopes) x every variable occurrence, rename on the real tool and LSP server, compared with an independent lexical-scope resolver and by running both programs',
     text='Every program of a binder grammar (containers: top-level block, function with a parameter, top-level statements, each with or without a global function of the same name; statements: print, let, let using the previous binding, destructuring let, assignment, if-block, for, match payload, closure parameter, capturing closure; sequences of <=2 statements, block nesting 1 in quick and 2 in thorough, i.e. up to 3/4 nested binders of one name) is printed with distinct values per binder and a print after every statement. For every occurrence of a local or parameter: (a) rename_positions equals the occurrence set of the binder computed by py/gvlib/scopes.py; (b) the renamed program (fresh name zz9) has the same stdout/outcome as the original; (c) LSP textDocument/rename edits, applied by an independent UTF-16 text-edit applier, give the same text as the rename tool. A refusal on a local/parameter occurrence is a violation.',
